@@ -50,7 +50,7 @@ def run_case(desc):
     H = S.H
     for _ in range(rng.randint(1, 3)):
         ps = [i for i in S.reg if S.rp.role[i] == "psrc"]
-        dl = [i for i in S.reg if S.rp.role[i] in ("stored", "dsrc")]
+        dl = [i for i in S.reg if S.rp.role[i] in ("stored", "dsrc", "slit")]
         if ps and rng.random() < 0.6:
             i = rng.choice(ps)
             S.src_version[i] += 1
